@@ -23,6 +23,95 @@ def find_simplifier(hlp):
     raise AnalysisError('constant-folding loop of the simplifier not found')
 
 
+def merge_rule(ctx, R3):
+    """Bit positions in merge_sliceto_slice (shared with C07: a read overlapping several stores is assembled by expr_simp(ExprCompose(pieces)))."""
+    hlp = ctx.mod('expr_helper')
+    from ..linarith import lin, lin_add, show
+    ms = hlp.funcs.get('merge_sliceto_slice')
+    if ms is None:
+        raise AnalysisError('expression_helper.merge_sliceto_slice not found')
+    LOW = 'sorted_s[-1][1]'
+
+    def atoms(e):
+        """linear form with the lower neighbour sorted_s[-1][1] written as low"""
+        t = u(e).replace(LOW, 'low')
+        return lin(ast.parse(t, mode='eval').body)
+    # masking of constant pieces to their width
+    masks = [n for n in ast.walk(ms) if isinstance(n, ast.BinOp) and isinstance(n.op, ast.BitAnd) and isinstance(n.right, ast.BinOp) and isinstance(n.right.op, ast.Sub)
+             and isinstance(n.right.left, ast.BinOp) and isinstance(n.right.left.op, ast.LShift)]
+    if not masks:
+        R3.violation('const-mask', 'merge:const-mask:none', 'constant pieces are no longer masked to their width before merging', where(hlp, ms))
+    for n in masks:
+        width = lin(n.right.left.right)
+        if width == {'x[2]': 1, 'x[1]': -1} and u(n.right.left.left) == '1' and u(n.right.right) == '1':
+            R3.ok('const-mask', sample='constant piece masked with (1 << (stop - start)) - 1')
+        else:
+            R3.violation('const-mask', 'merge:const-mask:%s' % show(width), 'a constant piece is masked to %s bits instead of stop - start' % show(width), where(hlp, n))
+    inner = [n for n in ast.walk(ms) if isinstance(n, ast.While) and u(n.test) == 'sorted_s' and not any(isinstance(x, ast.While) for s2 in n.body for x in ast.walk(s2))]
+    if len(inner) != 2:
+        raise AnalysisError('merge_sliceto_slice: expected the two inner merge loops, found %d' % len(inner))
+    for k, loop in enumerate(inner):
+        which = 'constants' if any('uint64' in u(s2) for s2 in loop.body) else 'slices'
+        # invariant start == out[1] is established before the loop: start, v = pop(); out = [.., v[1], v[2]] with entries (x[1], x)
+        guards = [g for g in loop.body if isinstance(g, ast.If) and len(g.body) == 1 and isinstance(g.body[0], ast.Break)]
+        gtxt = [u(g.test) for g in guards]
+        inst = 'merge[%s]' % which
+        if '%s[2] != start' % LOW in gtxt:
+            R3.ok(inst + ':adjacent', sample='%s pieces merge only when low.stop == start' % which)
+        else:
+            R3.violation(inst + ':adjacent', 'merge:%s:adjacency' % which, 'the %s merge loop no longer requires the lower piece to end where the current one starts (guards: %s)'
+                         % (which, gtxt), where(hlp, loop))
+        env = {'start': {'out[1]': 1}}            # loop invariant
+        eq_low2 = {'out[1]': 1}                   # after the guard: low[2] == start == out[1]
+        seen_shift = seen_restore = False
+        for st in loop.body:
+            if isinstance(st, ast.Assign) and u(st.targets[0]) == 'start':
+                env['start'] = atoms(st.value)
+                if env['start'] != {'low[1]': 1}:
+                    R3.violation(inst + ':start', 'merge:%s:start:%s' % (which, u(st.value)), 'after merging, the piece must start at the lower piece\'s start; found start = %s' % u(st.value),
+                                 where(hlp, st))
+                else:
+                    R3.ok(inst + ':start', sample='start = low.start')
+            for n in ast.walk(st):
+                if which == 'constants' and isinstance(n, ast.BinOp) and isinstance(n.op, ast.LShift) and 'out[0].arg' in u(n.left):
+                    seen_shift = True
+                    amt = atoms(n.right)
+                    # substitute start and the adjacency equality low[2] == out[1]
+                    if 'start' in amt:
+                        c = amt.pop('start')
+                        amt = lin_add(amt, env['start'], c)
+                    if 'out[1]' in amt:
+                        c = amt.pop('out[1]')
+                        amt = lin_add(amt, {'low[2]': 1}, c)
+                    want = {'low[2]': 1, 'low[1]': -1}
+                    par = parent(n)
+                    while par is not None and not isinstance(par, ast.BinOp):
+                        par = parent(par)
+                    addend_ok = par is not None and isinstance(par.op, (ast.Add, ast.BitOr)) and '%s[0].arg' % LOW in u(par.right if par.left is n or n in list(ast.walk(par.left)) else par.left)
+                    if amt == want and addend_ok:
+                        R3.ok(inst + ':shift', sample='high part shifted by the width of the lower piece (low.stop - low.start), lower constant added')
+                    elif amt != want:
+                        R3.violation(inst + ':shift', 'merge:constants:shift:%s' % u(n.right), 'the accumulated high constant is shifted by %s (= %s), not by the width of the lower piece low.stop - low.start'
+                                     % (u(n.right), show(amt)), where(hlp, n), witness='Compose(0x11@0:8, 0x22@8:16, 0x33@16:24) folds to a different constant')
+                    else:
+                        R3.violation(inst + ':shift', 'merge:constants:addend', 'the lower constant is no longer added below the shifted high part', where(hlp, n))
+            if isinstance(st, ast.Assign) and u(st.targets[0]) == 'out[1]':
+                seen_restore = u(st.value) == 'start'
+            if which == 'slices' and isinstance(st, ast.Assign) and u(st.targets[0]) == 'out[0].start':
+                if u(st.value) == '%s[0].start' % LOW and '%s[0].stop != out[0].start' % LOW in gtxt:
+                    R3.ok(inst + ':source-bits', sample='slices of one source merge only when low.slice.stop == cur.slice.start; merged slice starts at low.slice.start')
+                else:
+                    R3.violation(inst + ':source-bits', 'merge:slices:source-bits', 'merged slice start is %s under guards %s: source bits are no longer contiguous' % (u(st.value), gtxt), where(hlp, st))
+        if which == 'constants':
+            if not seen_shift:
+                R3.violation(inst + ':shift', 'merge:constants:shift:none', 'constant merge no longer shifts the high part', where(hlp, loop))
+            if seen_restore:
+                R3.ok(inst + ':invariant', sample='out[1] = start restores the invariant start == out.start')
+            else:
+                R3.violation(inst + ':invariant', 'merge:constants:invariant', 'the merged constant piece does not record its new start (out[1] = start)', where(hlp, loop))
+
+
+
 def run(ctx, report):
     hlp = ctx.mod('expr_helper')
     fn, loop = find_simplifier(hlp)
@@ -149,89 +238,7 @@ def run(ctx, report):
 
     # ---------------------------------------------------------------- D3 bit positions in merge_sliceto_slice
     R3 = report.rule('C05.D3', 'merging adjacent pieces of a Compose keeps every piece at its bit position', floor=7)
-    from ..linarith import lin, lin_add, show
-    ms = hlp.funcs.get('merge_sliceto_slice')
-    if ms is None:
-        raise AnalysisError('expression_helper.merge_sliceto_slice not found')
-    LOW = 'sorted_s[-1][1]'
-
-    def atoms(e):
-        """linear form with the lower neighbour sorted_s[-1][1] written as low"""
-        t = u(e).replace(LOW, 'low')
-        return lin(ast.parse(t, mode='eval').body)
-    # masking of constant pieces to their width
-    masks = [n for n in ast.walk(ms) if isinstance(n, ast.BinOp) and isinstance(n.op, ast.BitAnd) and isinstance(n.right, ast.BinOp) and isinstance(n.right.op, ast.Sub)
-             and isinstance(n.right.left, ast.BinOp) and isinstance(n.right.left.op, ast.LShift)]
-    if not masks:
-        R3.violation('const-mask', 'merge:const-mask:none', 'constant pieces are no longer masked to their width before merging', where(hlp, ms))
-    for n in masks:
-        width = lin(n.right.left.right)
-        if width == {'x[2]': 1, 'x[1]': -1} and u(n.right.left.left) == '1' and u(n.right.right) == '1':
-            R3.ok('const-mask', sample='constant piece masked with (1 << (stop - start)) - 1')
-        else:
-            R3.violation('const-mask', 'merge:const-mask:%s' % show(width), 'a constant piece is masked to %s bits instead of stop - start' % show(width), where(hlp, n))
-    inner = [n for n in ast.walk(ms) if isinstance(n, ast.While) and u(n.test) == 'sorted_s' and not any(isinstance(x, ast.While) for s2 in n.body for x in ast.walk(s2))]
-    if len(inner) != 2:
-        raise AnalysisError('merge_sliceto_slice: expected the two inner merge loops, found %d' % len(inner))
-    for k, loop in enumerate(inner):
-        which = 'constants' if any('uint64' in u(s2) for s2 in loop.body) else 'slices'
-        # invariant start == out[1] is established before the loop: start, v = pop(); out = [.., v[1], v[2]] with entries (x[1], x)
-        guards = [g for g in loop.body if isinstance(g, ast.If) and len(g.body) == 1 and isinstance(g.body[0], ast.Break)]
-        gtxt = [u(g.test) for g in guards]
-        inst = 'merge[%s]' % which
-        if '%s[2] != start' % LOW in gtxt:
-            R3.ok(inst + ':adjacent', sample='%s pieces merge only when low.stop == start' % which)
-        else:
-            R3.violation(inst + ':adjacent', 'merge:%s:adjacency' % which, 'the %s merge loop no longer requires the lower piece to end where the current one starts (guards: %s)'
-                         % (which, gtxt), where(hlp, loop))
-        env = {'start': {'out[1]': 1}}            # loop invariant
-        eq_low2 = {'out[1]': 1}                   # after the guard: low[2] == start == out[1]
-        seen_shift = seen_restore = False
-        for st in loop.body:
-            if isinstance(st, ast.Assign) and u(st.targets[0]) == 'start':
-                env['start'] = atoms(st.value)
-                if env['start'] != {'low[1]': 1}:
-                    R3.violation(inst + ':start', 'merge:%s:start:%s' % (which, u(st.value)), 'after merging, the piece must start at the lower piece\'s start; found start = %s' % u(st.value),
-                                 where(hlp, st))
-                else:
-                    R3.ok(inst + ':start', sample='start = low.start')
-            for n in ast.walk(st):
-                if which == 'constants' and isinstance(n, ast.BinOp) and isinstance(n.op, ast.LShift) and 'out[0].arg' in u(n.left):
-                    seen_shift = True
-                    amt = atoms(n.right)
-                    # substitute start and the adjacency equality low[2] == out[1]
-                    if 'start' in amt:
-                        c = amt.pop('start')
-                        amt = lin_add(amt, env['start'], c)
-                    if 'out[1]' in amt:
-                        c = amt.pop('out[1]')
-                        amt = lin_add(amt, {'low[2]': 1}, c)
-                    want = {'low[2]': 1, 'low[1]': -1}
-                    par = parent(n)
-                    while par is not None and not isinstance(par, ast.BinOp):
-                        par = parent(par)
-                    addend_ok = par is not None and isinstance(par.op, (ast.Add, ast.BitOr)) and '%s[0].arg' % LOW in u(par.right if par.left is n or n in list(ast.walk(par.left)) else par.left)
-                    if amt == want and addend_ok:
-                        R3.ok(inst + ':shift', sample='high part shifted by the width of the lower piece (low.stop - low.start), lower constant added')
-                    elif amt != want:
-                        R3.violation(inst + ':shift', 'merge:constants:shift:%s' % u(n.right), 'the accumulated high constant is shifted by %s (= %s), not by the width of the lower piece low.stop - low.start'
-                                     % (u(n.right), show(amt)), where(hlp, n), witness='Compose(0x11@0:8, 0x22@8:16, 0x33@16:24) folds to a different constant')
-                    else:
-                        R3.violation(inst + ':shift', 'merge:constants:addend', 'the lower constant is no longer added below the shifted high part', where(hlp, n))
-            if isinstance(st, ast.Assign) and u(st.targets[0]) == 'out[1]':
-                seen_restore = u(st.value) == 'start'
-            if which == 'slices' and isinstance(st, ast.Assign) and u(st.targets[0]) == 'out[0].start':
-                if u(st.value) == '%s[0].start' % LOW and '%s[0].stop != out[0].start' % LOW in gtxt:
-                    R3.ok(inst + ':source-bits', sample='slices of one source merge only when low.slice.stop == cur.slice.start; merged slice starts at low.slice.start')
-                else:
-                    R3.violation(inst + ':source-bits', 'merge:slices:source-bits', 'merged slice start is %s under guards %s: source bits are no longer contiguous' % (u(st.value), gtxt), where(hlp, st))
-        if which == 'constants':
-            if not seen_shift:
-                R3.violation(inst + ':shift', 'merge:constants:shift:none', 'constant merge no longer shifts the high part', where(hlp, loop))
-            if seen_restore:
-                R3.ok(inst + ':invariant', sample='out[1] = start restores the invariant start == out.start')
-            else:
-                R3.violation(inst + ':invariant', 'merge:constants:invariant', 'the merged constant piece does not record its new start (out[1] = start)', where(hlp, loop))
+    merge_rule(ctx, R3)
 
     # ---------------------------------------------------------------- D4 side conditions and bit arithmetic of the rewrites
     R4 = report.rule('C05.D4', 'rewrite rules fire only under their algebraic side condition and re-base slices exactly', floor=9)
@@ -410,6 +417,11 @@ def run(ctx, report):
     # ---------------------------------------------------------------- D5 size-table lookups are guarded
     R5 = report.rule('C05.D5', 'the simplifier indexes the width->integer-type table only with widths that have an integer type', floor=8)
     size_table_rule(R5, hlp, [fn, hlp.func('merge_sliceto_slice')])
+
+    # ---------------------------------------------------------------- D6 the equality the rewrites rely on is exact
+    R6 = report.rule('C05.D6', 'A ^ A, A + (-A), A | A, A & A and the fixpoint test compare with an exact structural equality', floor=8)
+    from .c15 import eq_rule
+    eq_rule(ctx, R6)
 
 
 def size_table_rule(R, hlp, fns):
